@@ -12,6 +12,7 @@
 #include <aws/common/byte_buf.h>
 #include <aws/common/file.h>
 #include <aws/common/string.h>
+#include <aws/common/zero.h>
 #include <errno.h>
 #include <stdlib.h>
 #include <string.h>
@@ -91,6 +92,9 @@ static void s_w_release(struct aws_allocator *a, void *p) {
             if (s_blk[id].ptr[i]) {
                 zero = 0;
             }
+        }
+        if ((aws_is_mem_zeroed(s_blk[id].ptr, s_blk[id].size) ? 1 : 0) != zero) {
+            printf("P MONITOR aws_is_mem_zeroed disagrees with a byte scan on block %zu (%zu bytes)\n", id, s_blk[id].size);
         }
         printf("P release rid=%zu size=%zu zero=%d\n", id, s_blk[id].size, zero);
     }
@@ -1044,6 +1048,40 @@ int main(void) {
                                                           : aws_string_eq_byte_buf_ignore_case(str, &s_b[x]);
             aws_string_destroy(str);
             printf("P r pred %d\n", r ? 1 : 0);
+        } else if (IS("normalize_dir_sep") && n == 2) {
+            int b = BS(t[1]);
+            if (b < 0) BAD();
+            if (s_bforged[b]) SKIP("forged");
+            aws_normalize_directory_separator(&s_b[b]);
+            printf("P r -\n");
+            s_print_buf(b);
+        } else if ((IS("string_from_cursor") || IS("string_from_buf")) && n == 2) {
+            bool isbuf = t[0][12] == 'b';
+            int x = isbuf ? BS(t[1]) : CS(t[1]);
+            if (x < 0) BAD();
+            if (!isbuf && s_stale(x)) SKIP("stale");
+            if (isbuf && s_bforged[x]) SKIP("forged");
+            if (!isbuf && s_c[x].len > LIMIT) SKIP("huge");
+            struct aws_string *str = isbuf ? aws_string_new_from_buf(hc_allocator(), &s_b[x]) : aws_string_new_from_cursor(hc_allocator(), &s_c[x]);
+            HC_CHECK(str != NULL);
+            printf("P r OK len=%zu nul=%d ", str->len, aws_string_bytes(str)[str->len] == 0 ? 1 : 0);
+            hc_put_hex(aws_string_bytes(str), str->len);
+            printf("\n");
+            aws_string_destroy(str);
+        } else if (IS("is_zeroed") && n == 2) {
+            int c = CS(t[1]);
+            if (c < 0) BAD();
+            if (s_stale(c)) SKIP("stale");
+            if (s_c[c].len > LIMIT || s_c[c].ptr == NULL) SKIP("precondition");
+            /* aws_is_mem_zeroed loads uint64_t through the pointer it is given: on a view that does not start 8-aligned
+             * that is a misaligned load (UBSan alignment report at zero.inl:27 on the unchanged tree - reported to the
+             * project owner, outside C01's wording).  The check therefore hands it an aligned exact-size copy. */
+            {
+                uint8_t *cp = malloc(s_c[c].len ? s_c[c].len : 1);
+                memcpy(cp, s_c[c].ptr, s_c[c].len);
+                printf("P r pred %d\n", aws_is_mem_zeroed(cp, s_c[c].len) ? 1 : 0);
+                free(cp);
+            }
         } else if (IS("hash_ignore_case") && n == 2) {
             int c = CS(t[1]);
             if (c < 0) BAD();
